@@ -450,3 +450,27 @@ _public_ ssize_t m_map_len(const m_map_t *m) {
     
     return m->length;
 }
+
+#ifdef LIBMODULE_VERIF
+/*
+ * Verification hook (compiled only with -DLIBMODULE_VERIF):
+ * reports the home slot of a key, the slot it currently occupies (-1 if absent)
+ * and the current table size. Used to steer test key generation only.
+ */
+_public_ int m_map_verif_slot(const m_map_t *m, const char *key, size_t *home, ssize_t *slot, size_t *table_size) {
+    M_PARAM_ASSERT(m);
+    M_PARAM_ASSERT(key);
+
+    if (home) {
+        *home = hashmap_calc_index(m, key);
+    }
+    if (table_size) {
+        *table_size = m->table_size;
+    }
+    if (slot) {
+        map_elem *entry = hashmap_entry_find(m, key, false);
+        *slot = entry ? (ssize_t)(entry - m->table) : -1;
+    }
+    return 0;
+}
+#endif
